@@ -81,12 +81,19 @@ func NewAllocation(
 	}
 }
 
-// GetPermission gets the Permission from the allocation.
+// GetPermission gets the Permission from the allocation. A permission whose
+// lifetime has run out authorises nothing, also while its removal is waiting
+// for the lock.
 func (a *Allocation) GetPermission(addr net.Addr) *Permission {
 	a.permissionsLock.RLock()
 	defer a.permissionsLock.RUnlock()
 
-	return a.permissions[ipnet.FingerprintAddr(addr)]
+	perm := a.permissions[ipnet.FingerprintAddr(addr)]
+	if perm != nil && !time.Now().Before(perm.expiry) {
+		return nil
+	}
+
+	return perm
 }
 
 // AddPermission adds a new permission to the allocation, or refreshes the one
@@ -310,7 +317,7 @@ func (a *Allocation) GetChannelByNumber(number proto.ChannelNumber) *ChannelBind
 	defer a.channelBindingsLock.RUnlock()
 	for _, cb := range a.channelBindings {
 		if cb.Number == number {
-			return cb
+			return cb.unlessExpired()
 		}
 	}
 
@@ -323,7 +330,7 @@ func (a *Allocation) GetChannelByAddr(addr net.Addr) *ChannelBind {
 	defer a.channelBindingsLock.RUnlock()
 	for _, cb := range a.channelBindings {
 		if ipnet.AddrEqual(cb.Peer, addr) {
-			return cb
+			return cb.unlessExpired()
 		}
 	}
 
